@@ -631,8 +631,16 @@ func r03d(c *core.Ctx) {
 			continue
 		}
 		n := 0
-		for _, f := range bodyAndClosures(fn) {
-			n += len(callsOfFn(f, h))
+		counted := map[*ssa.Function]bool{}
+		for _, f0 := range bodyAndClosures(fn) {
+			// the closure itself, or a helper of the package it delegates to
+			for _, f := range helperReach(f0, 1) {
+				if f == h || counted[f] {
+					continue
+				}
+				counted[f] = true
+				n += len(callsOfFn(f, h))
+			}
 		}
 		c.Check(n == 1, "dispatch-once:"+d.fn, fn.Pos(), fn, "the listener dispatches each admitted query to its handler from exactly one site", fmt.Sprint(n))
 	}
